@@ -315,7 +315,8 @@ class Check:
             "wall_s": round(wall, 2),
             "violations": len(self.violations),
         }
-        with open(os.path.join(EVID, self.pid + ".json"), "w") as fh:
+        # seedtest runs must not overwrite the evidence of the unchanged tree
+        with open(os.path.join(EVID, self.pid + os.environ.get("VERIF_EVID_SUFFIX", "") + ".json"), "w") as fh:
             json.dump(ev, fh, indent=1, default=_js)
         print(f"[{self.pid}] tier={self.tier} states={self.states} transitions={self.transitions} "
               f"impl_cases={self.evaluations} nontrivial={nd} traces={self.traces} "
